@@ -54,6 +54,10 @@ fn remaps() -> Vec<Remap> {
         affine("rotX90", Matrix4::new(1.0, 0.0, 0.0, 0.0, 0.0, 0.0, -1.0, 0.0, 0.0, 1.0, 0.0, 0.0, 0.0, 0.0, 0.0, 1.0), true),
         affine("shear", Matrix4::new(1.0, 0.5, 0.0, 0.25, 0.0, 1.0, 0.25, 0.0, 0.0, 0.0, 1.0, -1.0, 0.0, 0.0, 0.0, 1.0), true),
         affine("rot30(0.3,-0.2,0.5)", Matrix4::new_rotation(Vector3::new(0.3, -0.2, 0.5)), false),
+        // a singular map: the z row has no linear part, so z becomes the constant 0.5
+        affine("flatten z := 0.5", Matrix4::new(1.0, 0.0, 0.0, 0.0, 0.0, 1.0, 0.0, 0.0, 0.0, 0.0, 0.0, 0.5, 0.0, 0.0, 0.0, 1.0), true),
+        // all twelve entries non-zero and different
+        affine("dense", Matrix4::new(0.5, -0.25, 0.75, 0.25, 0.125, 0.625, -0.5, -1.0, -0.375, 0.875, 0.25, 1.5, 0.0, 0.0, 0.0, 1.0), true),
     ];
     let xyz = |name: &'static str, tx: Tree, ty: Tree, tz: Tree, map: Map| Remap {
         name,
